@@ -188,26 +188,53 @@ def lattice(crop, acc, fine):
     cov["crops_lattice"] += 1
 
 
+def season_start_fco2(crop, co2):
+    """fCO2 as set by the *season reset* (the path every season after the first, and a first
+    season planted after the start date, goes through): start two days before planting and step
+    into the season."""
+    common.use_repo()
+    sp = init_spec(crop, co2)
+    sp["start"] = "2000/05/30"
+    m = S.make_model(sp)
+    I.watchdog_setup()
+    I.watchdog_arm(2_000_000)
+    try:
+        m.run_model(num_steps=2, initialize_model=True)   # the reset runs at the end of the 2nd fallow day
+    finally:
+        I.watchdog_disarm()
+    assert m._clock_struct.season_counter == 0
+    return float(m._param_struct.Seasonal_Crop_List[0].fCO2)
+
+
 def co2_sweep(crop, step, acc):
     cov = acc.cov
     ref = 369.41
-    concs = [ref] + [float(x) for x in np.arange(250, 2500.01, step)]
-    vals = {}
-    for c in concs:
-        cr, _ = initialised_crop(crop, co2=c)
-        vals[c] = float(cr.fCO2)
-        cov["co2_initialisations"] += 1
-        cov["executions"] += 1
-    if abs(vals[ref] - 1.0) > 1e-12:
-        acc.add("co2-reference", f"{crop}: CO2 productivity factor at the reference concentration is {vals[ref]!r}",
-                dict(crop=crop))
-    xs = sorted(vals)
-    ys = [vals[x] for x in xs]
-    if not np.all(np.isfinite(ys)):
-        acc.add("co2-finite", f"{crop}: CO2 productivity factor not finite", dict(crop=crop))
-    mono(acc, ys, xs, +1, "co2-monotone", "CO2 productivity factor vs concentration", crop)
+    concs = sorted(set([ref] + [float(x) for x in np.arange(250, 2500.01, step)]
+                       + [float(x) for x in np.arange(540, 560.01, 1.0)] + [549.98, 550.02, 369.0, 370.0]))
+    out = {}
+    for path, fn in (("initialisation", lambda c: float(initialised_crop(crop, co2=c)[0].fCO2)),
+                     ("season reset", lambda c: season_start_fco2(crop, c))):
+        vals = {}
+        for c in concs:
+            vals[c] = fn(c)
+            cov["co2_initialisations"] += 1
+            cov["executions"] += 1
+        if abs(vals[ref] - 1.0) > 1e-12:
+            acc.add("co2-reference", f"{crop}: CO2 productivity factor at the reference concentration is {vals[ref]!r} "
+                    f"({path} path)", dict(crop=crop, path=path))
+        ys = [vals[x] for x in concs]
+        if not np.all(np.isfinite(ys)):
+            acc.add("co2-finite", f"{crop}: CO2 productivity factor not finite ({path} path)", dict(crop=crop))
+        mono(acc, ys, concs, +1, "co2-monotone", f"CO2 productivity factor vs concentration ({path} path)", crop)
+        out[path] = vals
+    a, b = out["initialisation"], out["season reset"]
+    worst = max(concs, key=lambda c: abs(a[c] - b[c]))
+    cov["co2_path_comparisons"] += len(concs)
+    if abs(a[worst] - b[worst]) > 1e-12:
+        acc.add("co2-paths-disagree", f"{crop}: at {worst} ppm the factor is {a[worst]!r} when set at initialisation but "
+                f"{b[worst]!r} when set by the season reset", dict(crop=crop, ppm=worst))
     cov["crops_co2"] += 1
-    return {"fCO2_250": vals[xs[0]], "fCO2_2500": vals[xs[-1]]}
+    return {"fCO2_250": a[concs[0]], "fCO2_2500": a[concs[-1]]}
 
 
 def run_case(case):
